@@ -130,6 +130,7 @@ func checkOptionsLengths(opts *Options) error {
 		lengthCheck("mr_owner_config", abi.MrOwnerConfigSize, opts.TdQuoteBodyOptions.MrOwnerConfig),
 		lengthCheck("report_data", abi.ReportDataSize, opts.TdQuoteBodyOptions.ReportData),
 		lengthCheck("qe_vendor_id", abi.QeVendorIDSize, opts.HeaderOptions.QeVendorID),
+		lengthCheck("minimum_tee_tcb_svn", abi.TeeTcbSvnSize, opts.TdQuoteBodyOptions.MinimumTeeTcbSvn),
 		lengthCheckMany("rtmrs", eqConstraint, abi.RtmrSize, opts.TdQuoteBodyOptions.Rtmrs),
 		lengthCheckMany("any_mr_td", nil, abi.MrTdSize, opts.TdQuoteBodyOptions.AnyMrTd),
 	)
@@ -235,7 +236,7 @@ func exactByteMatch(quote *pb.QuoteV4, opts *Options) error {
 }
 
 func isSvnHigherOrEqual(quoteSvn []byte, optionSvn []byte) bool {
-	if optionSvn == nil {
+	if len(optionSvn) == 0 {
 		return true
 	}
 	for i := range quoteSvn {
@@ -252,6 +253,9 @@ func minVersionCheck(quote *pb.QuoteV4, opts *Options) error {
 	logger.V(1).Info("Setting the minimum_tee_tcb_svn parameter value to ", opts.TdQuoteBodyOptions.MinimumTeeTcbSvn)
 
 	logger.V(2).Infof("TEE TCB security-version number is %v, and minimum_tee_tcb_svn value is %v", quote.GetTdQuoteBody().GetTeeTcbSvn(), opts.TdQuoteBodyOptions.MinimumTeeTcbSvn)
+	if len(opts.TdQuoteBodyOptions.MinimumTeeTcbSvn) != 0 && len(opts.TdQuoteBodyOptions.MinimumTeeTcbSvn) != abi.TeeTcbSvnSize {
+		return fmt.Errorf("option MinimumTeeTcbSvn must be nil or %d bytes", abi.TeeTcbSvnSize)
+	}
 	if !isSvnHigherOrEqual(quote.GetTdQuoteBody().GetTeeTcbSvn(), opts.TdQuoteBodyOptions.MinimumTeeTcbSvn) {
 		return fmt.Errorf("TEE TCB security-version number %d is less than the required minimum %d",
 			quote.GetTdQuoteBody().GetTeeTcbSvn(), opts.TdQuoteBodyOptions.MinimumTeeTcbSvn)
